@@ -2,14 +2,16 @@
 package c03
 
 import (
-	"os"
-	"path/filepath"
-
 	"encoding/json"
 	"errors"
 	"fmt"
-	"github.com/NethermindEth/juno/db/pebblev2"
+	"os"
+	"path/filepath"
+	"sort"
+	"strings"
 	"testing"
+
+	"github.com/NethermindEth/juno/db/pebblev2"
 
 	"github.com/NethermindEth/juno/core"
 	"github.com/NethermindEth/juno/core/felt"
@@ -178,9 +180,197 @@ func (k *checker) sweep(ch *gen.Chain, step string) {
 	}
 }
 
+
+// ---------------------------------------------------------------------------------------------
+// Blocks that are applied to the state WITHOUT the chain receiving them.
+//
+// Real callers: the block builder / consensus validator dry-run every candidate block with Blockchain.Simulate
+// (builder/executor.go Finish) and the candidate may then be dropped (proposal rejected, another proposal decided for
+// that height); the synchroniser offers blocks to Store that are rejected while - or after - the state diff was applied
+// (new-root mismatch, a failure while the rest of the block is written), the batch is dropped. Neither may leave a trace:
+// the model does not change on such a step and the ordinary oracle (every retained block + head equal the model) runs.
+
+// forSequencer is a deep copy of b in the shape the builder hands to Simulate/Finalise: block hash, state root, new root are
+// left for juno to fill in; OldRoot is the current root (the builder copies it from the head header; trie2 opens the state there).
+func forSequencer(b *gen.Block) *gen.Block {
+	nb := gen.CloneBlock(b)
+	nb.B.Hash, nb.B.GlobalStateRoot = nil, nil
+	nb.SU.NewRoot, nb.SU.BlockHash = nil, nil
+	return nb
+}
+
+func sortedKeys[V any](m map[felt.Felt]V) []felt.Felt {
+	out := make([]felt.Felt, 0, len(m))
+	for k := range m {
+		out = append(out, k)
+	}
+	sort.Slice(out, func(i, j int) bool { return out[i].Cmp(&out[j]) < 0 })
+	return out
+}
+
+func setRoot(b *gen.Block, root felt.Felt, u *gen.Universe) {
+	r := root
+	b.SU.NewRoot, b.B.GlobalStateRoot = &r, &r
+	gen.Rehash(b, u.Net)
+}
+
+// diffClasses labels what a not-stored block would have changed (what could leak).
+func diffClasses(c *stats.Case, prefix string, d *core.StateDiff) {
+	if len(d.DeclaredV1Classes)+len(d.DeclaredV0Classes) > 0 {
+		c.Label(prefix + ":declares-class")
+	}
+	if len(d.DeployedContracts) > 0 {
+		c.Label(prefix + ":deploys")
+	}
+	if len(d.StorageDiffs) > 0 {
+		c.Label(prefix + ":writes-storage")
+	}
+	if len(d.Nonces) > 0 {
+		c.Label(prefix + ":nonces")
+	}
+	if len(d.ReplacedClasses) > 0 {
+		c.Label(prefix + ":replaces-class")
+	}
+	if len(d.MigratedClasses) > 0 {
+		c.Label(prefix + ":migrates")
+	}
+}
+
+var rejectKinds = []string{"wrong-new-root", "wrong-new-root", "late", "late", "late", "double-deploy", "wrong-parent", "wrong-height"}
+
+// drawRejected builds a self-consistent block (hash matches content, passes the sanity check of the synchroniser) that
+// Store must refuse. Returns the block, the kind and the reason. The "late" kinds pass the state-root verification, so the
+// whole state diff is applied and flushed before the failure (CASM-hash bookkeeping of the block content) drops the batch.
+func drawRejected(t *rapid.T, ch *gen.Chain) (*gen.Block, string, string) {
+	u := ch.U
+	h := ch.Height()
+	kind := rapid.SampledFrom(rejectKinds).Draw(t, "rejectKind")
+	if h == 0 && (kind == "wrong-parent" || kind == "wrong-height") {
+		kind = "wrong-new-root"
+	}
+	if kind == "wrong-height" {
+		// a valid sibling of the head block: the block another fork has at the height the node already filled
+		b := ch.Fork(h - 1).Draw(t)
+		return b, kind, fmt.Sprintf("block for height %d offered while the head is %d", b.Num(), h-1)
+	}
+	b := ch.Fork(h).Draw(t)
+	d := b.SU.StateDiff
+	num, version := b.Num(), b.B.ProtocolVersion
+	correct := *b.SU.NewRoot
+	wrongRoot := func() (*gen.Block, string, string) {
+		var w felt.Felt
+		switch rapid.IntRange(0, 2).Draw(t, "wrongRootKind") {
+		case 0:
+			w = *b.SU.OldRoot // "nothing changed"
+		case 1:
+			w = felt.Zero
+		default:
+			w = gen.NonZeroFelt().Draw(t, "wrongRoot")
+		}
+		if w.Equal(&correct) {
+			w.Add(&correct, gen.FP(1))
+		}
+		setRoot(b, w, u)
+		return b, "wrong-new-root", "declared new root " + w.ShortString() + " instead of " + correct.ShortString()
+	}
+	switch kind {
+	case "wrong-parent":
+		p := gen.NonZeroFelt().Draw(t, "wrongParent")
+		if h >= 2 && rapid.Bool().Draw(t, "grandparent") {
+			p = *ch.Blocks[h-2].B.Hash
+		}
+		if p.Equal(b.B.ParentHash) {
+			p.Add(&p, gen.FP(1))
+		}
+		b.B.ParentHash = &p
+		gen.Rehash(b, u.Net)
+		return b, kind, "parent hash is not the head's hash"
+	case "double-deploy":
+		var addrs []felt.Felt
+		for _, a := range b.Pre.SortedContracts() {
+			if !b.Pre.Contracts[a].System {
+				addrs = append(addrs, a)
+			}
+		}
+		if len(addrs) == 0 {
+			return wrongRoot()
+		}
+		a := rapid.SampledFrom(addrs).Draw(t, "redeployed")
+		cls := b.Pre.Contracts[a].ClassHash
+		if others := b.Pre.SortedClasses(); len(others) > 0 && rapid.Bool().Draw(t, "otherClass") {
+			cls = rapid.SampledFrom(others).Draw(t, "redeployClass")
+		}
+		d.DeployedContracts[a] = &cls
+		delete(d.ReplacedClasses, a)
+		gen.Rehash(b, u.Net)
+		return b, kind, "deploys the already deployed contract " + a.ShortString()
+	case "late":
+		if version != "0.14.1" {
+			// a Sierra declaration whose definition is not delivered: both backends skip the class-trie leaf of such a class, the
+			// root of the remaining diff verifies, the state is flushed; recording the class's CASM hashes then fails
+			xs := sortedKeys(d.DeclaredV1Classes)
+			if len(xs) == 0 {
+				for _, s := range u.Sierra {
+					if _, ok := b.Pre.Classes[s.Hash]; !ok {
+						xs = append(xs, s.Hash)
+					}
+				}
+			}
+			if len(xs) == 0 {
+				return wrongRoot()
+			}
+			x := rapid.SampledFrom(xs).Draw(t, "classWithoutDefinition")
+			casm := u.SierraByHash(x).CasmV1
+			d.DeclaredV1Classes[x] = &casm
+			delete(b.Classes, x)
+			rest := gen.CloneDiff(d)
+			delete(rest.DeclaredV1Classes, x)
+			post := b.Pre.Clone()
+			if err := post.Apply(num, version, rest, b.Classes, u.CasmV2Of); err != nil {
+				stats.HarnessError("model cannot apply the diff without class %s: %v", x.ShortString(), err)
+			}
+			setRoot(b, post.Commitment(version), u)
+			return b, "late:class-without-definition", "declares Sierra class " + x.ShortString() + " without delivering its definition (v" + version + ")"
+		}
+		// 0.14.1: a CASM-hash migration the class cannot undergo. The class-trie leaf it writes is well defined (the blake2s hash),
+		// the root verifies, the state is flushed; updating the class's CASM-hash record then fails.
+		var again, undeclared []felt.Felt
+		for _, x := range b.Pre.SortedClasses() {
+			cl := b.Pre.Classes[x]
+			if _, dup := d.MigratedClasses[felt.SierraClassHash(x)]; cl.Sierra && !dup && (cl.CasmV1 == nil || cl.MigratedAt > 0) {
+				again = append(again, x)
+			}
+		}
+		for _, s := range u.Sierra {
+			_, declared := b.Pre.Classes[s.Hash]
+			_, declaring := d.DeclaredV1Classes[s.Hash]
+			if !declared && !declaring {
+				undeclared = append(undeclared, s.Hash)
+			}
+		}
+		if len(again) > 0 && (len(undeclared) == 0 || rapid.Bool().Draw(t, "migrateAgain")) {
+			x := rapid.SampledFrom(again).Draw(t, "migratedAgain")
+			d.MigratedClasses[felt.SierraClassHash(x)] = felt.CasmClassHash(b.Pre.Classes[x].CasmV2)
+			gen.Rehash(b, u.Net) // the leaf keeps its value: the root of the block is unchanged
+			return b, "late:migrates-class-already-on-v2-hash", "migrates class " + x.ShortString() + " whose compiled class hash is already the blake2s one"
+		}
+		if len(undeclared) == 0 {
+			return wrongRoot()
+		}
+		x := rapid.SampledFrom(undeclared).Draw(t, "migratedUndeclared")
+		v2 := u.CasmV2Of(x)
+		d.MigratedClasses[felt.SierraClassHash(x)] = felt.CasmClassHash(v2)
+		post := b.Post.Clone()
+		post.Classes[x] = &ref.Class{Sierra: true, CasmV2: v2} // only to compute the root with the leaf the migration writes
+		setRoot(b, post.Commitment(version), u)
+		return b, "late:migrates-undeclared-class", "migrates class " + x.ShortString() + " that was never declared"
+	}
+	return wrongRoot()
+}
+
 func TestPropHistoricalReads(t *testing.T) {
-	stats.Check(t, stats.Budget{Quick: 45, Thorough: 1200},
-		"rapid state machine store(next generated block)/revertHead/queryAll on a legacy and a trie2 node fed the same history (reverts followed by different blocks = forks); after every step EVERY retained block (by number and by hash) and the head are read for every contract, slot (plus never-written slots), class and compiled class hash of the universe and compared with the abstract-state snapshot of that block; non-trivial = some slot is written in >= 2 retained blocks with a query between them, or the chain was extended after a revert",
+	stats.Check(t, stats.Budget{Quick: 60, Thorough: 1200},
+		"rapid state machine store(next generated block | a candidate that was dry-run before; through Store or through Finalise)/revertHead/restart/dryRun(Simulate a generated candidate for head+1 that is then dropped)/storeRejected(a block Store must refuse: wrong new root, failure after the state diff was flushed, double deploy, wrong parent/height) on a legacy and a trie2 node fed the same history (reverts followed by different blocks = forks), memory or Pebble; after every step EVERY retained block (by number and by hash) and the head are read for every contract, slot (plus never-written slots), class and compiled class hash of the universe and compared with the abstract-state snapshot of that block (which a dry run / rejected store does not change); non-trivial = some slot is written in >= 2 retained blocks with a query between them, or the chain was extended after a revert, or a block was stored at a height for which a different block had been dry-run/rejected",
 		func(rt *rapid.T, c *stats.Case) {
 			u := gen.NewUniverse(rt)
 			ch := gen.NewChain(u, gen.Opts{MaxTxs: 2, MinVersionIdx: rapid.IntRange(0, 3).Draw(rt, "minver")})
@@ -204,82 +394,232 @@ func TestPropHistoricalReads(t *testing.T) {
 			extra := []felt.Felt{gen.F(0xdead0001), gen.F(0)}
 			cks := []*checker{{c: c, u: u, n: nodes[0], extraK: extra}, {c: c, u: u, n: nodes[1], extraK: extra}}
 			reverted := false
+
+			// candidates that were dry-run and not (yet) stored; ghosts = hashes of the blocks that were applied but not stored, per
+			// height; ghostDecl = lowest height at which a not-stored block declared a class
+			var cands []*gen.Block
+			ghosts := map[uint64][]felt.Felt{}
+			ghostDecl := map[felt.Felt]uint64{}
+			remember := func(b *gen.Block) {
+				ghosts[b.Num()] = append(ghosts[b.Num()], *b.B.Hash)
+				for h := range b.Classes {
+					if at, ok := ghostDecl[h]; !ok || b.Num() < at {
+						ghostDecl[h] = b.Num()
+					}
+				}
+			}
+			fitsHead := func(b *gen.Block) bool {
+				h := ch.Height()
+				if b.Num() != uint64(h) {
+					return false
+				}
+				if h == 0 {
+					return b.B.ParentHash.IsZero()
+				}
+				return b.B.ParentHash.Equal(ch.Blocks[h-1].B.Hash)
+			}
+			sweepAll := func(step string) {
+				for _, k := range cks {
+					k.sweep(ch, step)
+				}
+			}
+
+			store := func(t *rapid.T) {
+				if ch.Height() >= 9 {
+					t.Skip()
+				}
+				// readers of the current head block (by number and by hash) are opened BEFORE the store and must keep
+				// answering as of that block afterwards (they are views of a block, not of the moving head)
+				type held struct {
+					k      *checker
+					r      core.StateReader
+					closer func() error
+					how    string
+				}
+				var helds []held
+				var prev *gen.Block
+				if ch.Height() > 0 && rapid.IntRange(0, 2).Draw(t, "holdReaders") == 0 {
+					prev = ch.Blocks[ch.Height()-1]
+					for _, k := range cks {
+						if r, cl, err := k.n.BC.StateAtBlockNumber(prev.Num()); err == nil {
+							helds = append(helds, held{k, r, cl, "by number"})
+						}
+						if r, cl, err := k.n.BC.StateAtBlockHash(prev.B.Hash); err == nil {
+							helds = append(helds, held{k, r, cl, "by hash"})
+						}
+					}
+					c.Label("reader-held-across-store")
+				}
+				// the block: freshly generated, or one of the candidates that were dry-run on this very parent (the builder's
+				// Simulate-then-Finalise flow; after a revert also a candidate that had lost against another block first)
+				var fitting []*gen.Block
+				for _, cand := range cands {
+					if fitsHead(cand) {
+						fitting = append(fitting, cand)
+					}
+				}
+				var b *gen.Block
+				if len(fitting) > 0 && rapid.IntRange(0, 2).Draw(t, "storeCandidate") == 0 {
+					b = rapid.SampledFrom(fitting).Draw(t, "candidate")
+					ch.Blocks = append(ch.Blocks, b)
+					ch = ch.Fork(ch.Height()) // continue with the candidate's protocol version / a fresh nonce space
+					c.Label("stored-a-dry-run-candidate")
+					c.Fp("store-candidate %s", b.B.Hash.ShortString())
+				} else {
+					b = ch.Next(t)
+				}
+				viaFinalise := rapid.IntRange(0, 3).Draw(t, "viaFinalise") == 0
+				var sign core.BlockSignFunc
+				if viaFinalise && rapid.Bool().Draw(t, "signed") {
+					sign = func(blockHash, _ *felt.Felt) ([]*felt.Felt, error) { return []*felt.Felt{gen.FP(1), blockHash}, nil }
+				}
+				c.Fp("store %d %v %s", b.Num(), viaFinalise, gen.DiffString(b.SU.StateDiff))
+				defer func() {
+					for _, h := range helds {
+						h.k.compareView(fmt.Sprintf("reader of block %d opened %s while it was the head, read after block %d was stored", prev.Num(), h.how, b.Num()), h.r, prev.Post, true)
+						_ = h.closer()
+					}
+				}()
+				for tag := range b.Tags {
+					c.Label("blk:" + tag)
+				}
+				for _, g := range ghosts[b.Num()] {
+					if !g.Equal(b.B.Hash) {
+						c.NonTrivial("different-block-stored-where-one-was-dry-run-or-rejected")
+					}
+				}
+				for h := range b.Classes {
+					if at, ok := ghostDecl[h]; ok && at < b.Num() {
+						c.Label("class-declared-later-than-a-dropped-block-declared-it")
+					}
+				}
+				for _, n := range nodes {
+					if viaFinalise {
+						// the sequencer's path: juno computes roots and hash itself
+						c.Label("store-via-finalise")
+						fb := forSequencer(b)
+						if err := n.BC.Finalise(fb.B, fb.SU, fb.Classes, sign); err != nil {
+							c.Violation("valid-block-rejected", "%s: Finalise of valid block %d: %v", n.Backend(), b.Num(), err)
+						}
+						if !fb.B.Hash.Equal(b.B.Hash) || !fb.B.GlobalStateRoot.Equal(b.B.GlobalStateRoot) {
+							c.Violation("finalise-differs-from-reference", "%s: Finalise of block %d produced root %s hash %s; reference root %s hash %s",
+								n.Backend(), b.Num(), fb.B.GlobalStateRoot.ShortString(), fb.B.Hash.ShortString(), b.B.GlobalStateRoot.ShortString(), b.B.Hash.ShortString())
+						}
+					} else if err := n.Store(b); err != nil {
+						c.Violation("valid-block-rejected", "%s rejected valid block %d: %v", n.Backend(), b.Num(), err)
+					}
+				}
+				if reverted {
+					c.NonTrivial("extended-after-revert")
+				}
+				sweepAll(fmt.Sprintf("after store %d", b.Num()))
+			}
+			revert := func(t *rapid.T) {
+				if ch.Height() == 0 {
+					t.Skip()
+				}
+				c.Fp("revert %d", ch.Height()-1)
+				for _, n := range nodes {
+					if err := n.BC.RevertHead(); err != nil {
+						c.Violation("revert-failed", "%s RevertHead(%d): %v", n.Backend(), ch.Height()-1, err)
+					}
+				}
+				ch = ch.Fork(ch.Height() - 1)
+				reverted = true
+				c.Label("revert")
+				sweepAll("after revert")
+			}
+			dryRun := func(t *rapid.T) {
+				// real callers (builder.InitPreconfirmedBlock) build on an existing head
+				if ch.Height() == 0 || ch.Height() >= 9 {
+					t.Skip()
+				}
+				// a fresh candidate for head+1, or once more one of the candidates already tried on this parent (next round)
+				var b *gen.Block
+				var fitting []*gen.Block
+				for _, cand := range cands {
+					if fitsHead(cand) {
+						fitting = append(fitting, cand)
+					}
+				}
+				if len(fitting) > 0 && rapid.IntRange(0, 4).Draw(t, "simulateAgain") == 0 {
+					b = rapid.SampledFrom(fitting).Draw(t, "candidate")
+					c.Label("dry-run:same-candidate-again")
+				} else {
+					b = ch.Fork(ch.Height()).Draw(t)
+					cands = append(cands, b)
+					if len(cands) > 6 {
+						cands = cands[1:]
+					}
+					if len(fitting) > 0 {
+						c.Label("dry-run:several-candidates-for-one-height")
+					}
+				}
+				c.Fp("dry-run %d %s", b.Num(), gen.DiffString(b.SU.StateDiff))
+				c.Label("dry-run")
+				diffClasses(c, "dry-run", b.SU.StateDiff)
+				remember(b)
+				for _, n := range nodes {
+					sb := forSequencer(b)
+					if _, err := n.BC.Simulate(sb.B, sb.SU, sb.Classes, nil); err != nil {
+						c.Violation("simulate-failed", "%s: Simulate of a valid candidate for block %d: %v", n.Backend(), b.Num(), err)
+					}
+					// "returns what the new completed header and state update would be if the provided block was added to the chain"
+					if !sb.B.GlobalStateRoot.Equal(b.B.GlobalStateRoot) {
+						c.Violation("simulate-root", "%s: Simulate of candidate %d computed state root %s; reference %s (diff %s)", n.Backend(), b.Num(),
+							sb.B.GlobalStateRoot.ShortString(), b.B.GlobalStateRoot.ShortString(), gen.DiffString(b.SU.StateDiff))
+					}
+				}
+				sweepAll(fmt.Sprintf("after the dry run of a candidate for block %d (%s)", b.Num(), gen.DiffString(b.SU.StateDiff)))
+			}
+			storeRejected := func(t *rapid.T) {
+				if ch.Height() >= 9 {
+					t.Skip()
+				}
+				var b *gen.Block
+				var kind, why string
+				// a candidate that was dry-run on a parent that is no longer the head (stale proposal), else a generated invalid block
+				var stale []*gen.Block
+				for _, cand := range cands {
+					if !fitsHead(cand) {
+						stale = append(stale, cand)
+					}
+				}
+				if len(stale) > 0 && rapid.IntRange(0, 5).Draw(t, "offerStale") == 0 {
+					b = rapid.SampledFrom(stale).Draw(t, "stale")
+					kind, why = "stale-candidate", fmt.Sprintf("candidate for height %d built on a block that is not the head", b.Num())
+				} else {
+					b, kind, why = drawRejected(t, ch)
+				}
+				c.Fp("rejected %s %d %s", kind, b.Num(), gen.DiffString(b.SU.StateDiff))
+				c.Label("store-rejected")
+				c.Label("store-rejected:" + kind)
+				if strings.HasPrefix(kind, "late:") || kind == "wrong-new-root" {
+					diffClasses(c, "store-rejected", b.SU.StateDiff)
+				}
+				remember(b)
+				for _, n := range nodes {
+					if err := n.Store(gen.CloneBlock(b)); err == nil {
+						c.Violation("invalid-block-accepted", "%s accepted block %d that %s (diff %s)", n.Backend(), b.Num(), why, gen.DiffString(b.SU.StateDiff))
+					}
+				}
+				sweepAll(fmt.Sprintf("after the rejected store of block %d that %s (diff %s)", b.Num(), why, gen.DiffString(b.SU.StateDiff)))
+			}
+			restart := func(t *rapid.T) {
+				c.Fp("restart")
+				for _, n := range nodes {
+					n.Reopen()
+				}
+				sweepAll("after restart")
+			}
+			// rapid picks the action uniformly by name: store and revert keep their weight against each other (the chain is a random
+			// walk over 0..9 blocks), a quarter of the steps are dry runs, an eighth rejected stores
 			rt.Repeat(map[string]func(*rapid.T){
-				"store": func(t *rapid.T) {
-					if ch.Height() >= 9 {
-						t.Skip()
-					}
-					// readers of the current head block (by number and by hash) are opened BEFORE the store and must keep
-					// answering as of that block afterwards (they are views of a block, not of the moving head)
-					type held struct {
-						k      *checker
-						r      core.StateReader
-						closer func() error
-						how    string
-					}
-					var helds []held
-					var prev *gen.Block
-					if ch.Height() > 0 && rapid.IntRange(0, 2).Draw(t, "holdReaders") == 0 {
-						prev = ch.Blocks[ch.Height()-1]
-						for _, k := range cks {
-							if r, cl, err := k.n.BC.StateAtBlockNumber(prev.Num()); err == nil {
-								helds = append(helds, held{k, r, cl, "by number"})
-							}
-							if r, cl, err := k.n.BC.StateAtBlockHash(prev.B.Hash); err == nil {
-								helds = append(helds, held{k, r, cl, "by hash"})
-							}
-						}
-						c.Label("reader-held-across-store")
-					}
-					b := ch.Next(t)
-					c.Fp("store %d %s", b.Num(), gen.DiffString(b.SU.StateDiff))
-					defer func() {
-						for _, h := range helds {
-							h.k.compareView(fmt.Sprintf("reader of block %d opened %s while it was the head, read after block %d was stored", prev.Num(), h.how, b.Num()), h.r, prev.Post, true)
-							_ = h.closer()
-						}
-					}()
-					for tag := range b.Tags {
-						c.Label("blk:" + tag)
-					}
-					for _, n := range nodes {
-						if err := n.Store(b); err != nil {
-							c.Violation("valid-block-rejected", "%s rejected valid block %d: %v", n.Backend(), b.Num(), err)
-						}
-					}
-					if reverted {
-						c.NonTrivial("extended-after-revert")
-					}
-					for _, k := range cks {
-						k.sweep(ch, fmt.Sprintf("after store %d", b.Num()))
-					}
-				},
-				"revert": func(t *rapid.T) {
-					if ch.Height() == 0 {
-						t.Skip()
-					}
-					c.Fp("revert %d", ch.Height()-1)
-					for _, n := range nodes {
-						if err := n.BC.RevertHead(); err != nil {
-							c.Violation("revert-failed", "%s RevertHead(%d): %v", n.Backend(), ch.Height()-1, err)
-						}
-					}
-					ch = ch.Fork(ch.Height() - 1)
-					reverted = true
-					c.Label("revert")
-					for _, k := range cks {
-						k.sweep(ch, "after revert")
-					}
-				},
-				"restart": func(t *rapid.T) {
-					c.Fp("restart")
-					for _, n := range nodes {
-						n.Reopen()
-					}
-					for _, k := range cks {
-						k.sweep(ch, "after restart")
-					}
-				},
+				"store": store, "store.": store,
+				"revert": revert, "revert.": revert,
+				"dryRun": dryRun, "dryRun.": dryRun,
+				"storeRejected": storeRejected,
+				"restart":       restart,
 			})
 			// slot rewritten in >= 2 retained blocks?
 			writes := map[string]int{}
